@@ -131,7 +131,7 @@ PROPS = {
     "C15": dict(kind="v1hist", quick_n=1200, thorough_n=24000, oracle=lambda h, i, line, impl, orc: (
                     "replaying the extracted change sets does not reproduce the versions: " + impl
                     if line == "replaycs" and not impl.startswith("ok") else None),
-                profile=Profile(changes=0.8, p_savecs=0.3, p_noop_version=0.3, check_all_versions=0.1, p_prune=0.15,
+                profile=Profile(p_load_old=0.12, p_save_existing=0.8, changes=0.8, p_savecs=0.3, p_noop_version=0.3, check_all_versions=0.1, p_prune=0.15,
                                 p_loadow=0.05, p_hash_read=0.1, reads_per_version=(0, 2), imm_reads_per_version=(0, 1)),
                 title="change sets"),
     "C11": dict(kind="v1hist", quick_n=600, thorough_n=12000, gen="c11", oracle=c11_oracle, profile=None,
